@@ -245,14 +245,19 @@ func runC19(c *ev.Case, ctx *lib.Ctx, cc *c19Case, merge []c19Chunk, stepwise bo
 		mu.Lock()
 		pm := pending
 		mu.Unlock()
-		done := make(chan struct{})
-		go func() {
-			for i := len(pm) - 1; i >= 0; i-- {
-				pm[i].Answer(2001).WriteTo(pconn)
-			}
-			close(done)
-		}()
-		<-done
+		// answers written later, in reverse order, by several goroutines at once
+		const G = 4
+		var wg sync.WaitGroup
+		for g := 0; g < G; g++ {
+			wg.Add(1)
+			go func(g int) {
+				defer wg.Done()
+				for i := len(pm) - 1 - g; i >= 0; i -= G {
+					pm[i].Answer(2001).WriteTo(pconn)
+				}
+			}(g)
+		}
+		wg.Wait()
 		c.Event("deferred_answer_runs", 1)
 	}
 	ok := invariants(true)
